@@ -2,7 +2,7 @@
 # jobs for units/io.cpp — stream and fd readers/writers over the ASSUMED iostream / POSIX models.
 out = []
 def job(name, props, unwind, kind="complete", note="constant trip counts", tier="quick", extra=""):
-    out.append("job io_%s\n  props %s\n  harness h_%s\n  unwind %d %s %s\n%s  tier %s\n  timeout 900\n" % (name, props, name, unwind, kind, note, extra, tier))
+    out.append("job io_%s\n  props %s\n  harness h_%s\n  unwind %d %s %s\n%s  tier %s\n  timeout 3000\n" % (name, props, name, unwind, kind, note, extra, tier))
 # conformance: three symbolic primitive calls in lock step with the reference source/sink (bounded history)
 for n in ("conf_stream_reader", "conf_stream_writer"):
     job(n, "C17 C05", 10, "bounded", "call sequences of length 3 over <= 6 source bytes")
@@ -10,13 +10,13 @@ for n in ("conf_fd_reader", "conf_fd_writer"):
     job(n, "C17 C05", 10, "bounded", "call sequences of length 3 over <= 6 source bytes; one EINTR at a symbolic call; short reads", tier="thorough")
 job("fd_ownership", "C17", 4)
 for t in ("u32", "f64", "s1", "tr"):
-    job("rt_%s_stream" % t, "C01", 26, extra="  unwindset ReadEntries 4\n  unwindset ::dec( 4\n  unwindset FdReader 12\n  unwindset FdWriter 12\n  unwindset StreamWriter 12\n")
+    job("rt_%s_stream" % t, "C01", 26, tier=("quick" if t in ("u32", "f64") else "thorough"), extra="  unwindset ReadEntries 4\n  unwindset ::dec( 4\n  unwindset nop::FdReader::Read(unsigned char *) 3\n  unwindset nop::FdReader::Read(void *, void *) 10\n  unwindset nop::FdWriter::Write(unsigned char) 3\n  unwindset nop::FdWriter::Write(const void *, const void *) 10\n  unwindset nop::StreamWriter< 12\n")
 for t in ("u32", "f64", "s1"):
-    job("rt_%s_fd" % t, "C01", 26, extra="  unwindset FdReader 12\n  unwindset FdWriter 12\n")
+    job("rt_%s_fd" % t, "C01", 26, tier=("quick" if t == "u32" else "thorough"), extra="  unwindset nop::FdReader::Read(unsigned char *) 3\n  unwindset nop::FdReader::Read(void *, void *) 10\n  unwindset nop::FdWriter::Write(unsigned char) 3\n  unwindset nop::FdWriter::Write(const void *, const void *) 10\n")
 job("rt_s1_ped_stream", "C01", 26, tier="thorough")
-job("rt_s1_stream_fd", "C01", 26, tier="thorough", extra="  unwindset FdReader 12\n")
+job("rt_s1_stream_fd", "C01", 26, tier="thorough", extra="  unwindset nop::FdReader::Read(unsigned char *) 3\n  unwindset nop::FdReader::Read(void *, void *) 10\n")
 for t, n in (("u32", 7), ("f64", 11), ("s1", 18), ("tr", 10)):
-    job("trunc_%s_stream" % t, "C05", n + 2, extra="  unwindset ReadEntries 5\n  unwindset ::dec( 5\n")
+    job("trunc_%s_stream" % t, "C05", n + 2, tier=("thorough" if t == "tr" else "quick"), extra="  unwindset ReadEntries 5\n  unwindset ::dec( 5\n")
 for t, n in (("u32", 7), ("f64", 11), ("s1", 18)):
-    job("trunc_%s_fd" % t, "C05", n + 2, extra="  unwindset FdReader 12\n")
+    job("trunc_%s_fd" % t, "C05", n + 2, tier=("quick" if t == "u32" else "thorough"), extra="  unwindset nop::FdReader::Read(unsigned char *) 3\n  unwindset nop::FdReader::Read(void *, void *) 10\n")
 print("\n".join(out))
